@@ -87,6 +87,9 @@ def classify(value):
 
 
 def judge(case):
+    if 'deep' in case:
+        part = work(('deep',))
+        return [(k, v[0]) for k, v in part.violations.items()]
     if 'outevent' in case:
         return judge_outevent(case)
     verdict, detail = classify(case['json'])
@@ -253,6 +256,42 @@ def work(job):
                                'comment': {'<class>': 'comment'}}]:
             _one({'json': val, 'faults': [['toplevel']]}, part, True)
             part.transitions += 1
+    elif kind == 'deep':
+        # SIZE: a value nested N levels deep (lists, dicts, mixed) at the places where an element, a types item or a
+        # field is expected; built as text (json.dumps would hit Python's own recursion limit)
+        for depth in (5, 50, 100, 253, 254, 255, 256, 257, 500, 1000):
+            for shape in ('list', 'dict', 'mixed'):
+                if shape == 'list':
+                    deep = '[' * depth + ']' * depth
+                elif shape == 'dict':
+                    deep = '{"k":' * depth + '1' + '}' * depth
+                else:
+                    deep = '{"k":[' * (depth // 2) + '1' + ']}' * (depth // 2)
+                docs = {
+                    'root-element': '{"<class>":"root","elements":[%s],"working-directory":"/"}' % deep,
+                    'namespace-element': '{"<class>":"root","elements":[{"<class>":"namespace","name":{"<class>":"scope_name","ids":["N"]},"elements":[%s]}],"working-directory":"/"}' % deep,
+                    'types-item': '{"<class>":"root","elements":[{"<class>":"interface","name":{"<class>":"scope_name","ids":["I"]},"types":{"<class>":"types","elements":[%s]},"events":{"<class>":"events","elements":[]}}],"working-directory":"/"}' % deep,
+                    'name': '{"<class>":"root","elements":[{"<class>":"enum","name":%s,"fields":{"<class>":"fields","elements":[]}}],"working-directory":"/"}' % deep,
+                    'comment': '{"<class>":"root","elements":[],"working-directory":"/","comment":%s}' % deep,
+                }
+                for where, text in docs.items():
+                    part.evaluations += 1
+                    part.states += 1
+                    part.transitions += 1
+                    part.nontrivial += 1
+                    verdicts = []
+                    for verbose in (True, False):
+                        try:
+                            parse_text(text, verbose)
+                            verdicts.append('result')
+                        except Exception as exc:  # pylint: disable=broad-except
+                            verdicts.append(type(exc).__name__)
+                    part.outcome('deep:' + verdicts[0])
+                    for v in verdicts:
+                        if v not in ('result', 'DznJsonError', 'NamespaceIdsTypeError', 'JSONDecodeError'):
+                            part.violation(f'internal:{v}', f'{shape} nested {depth} levels as {where}: {v}',
+                                           {'deep': [depth, shape, where]})
+                            break
     elif kind == 'outevents':
         rets = [['void'], ['bool'], ['E'], ['N', 'void'], ['I', 'E'], ['Void'], ['VOID'], ['void', 'void']]
         for ret in rets:
@@ -290,7 +329,7 @@ def _one(case, part, sample):
 
 
 def explore(ctx):
-    jobs = [('toplevel',), ('outevents',)]
+    jobs = [('toplevel',), ('outevents',), ('deep',)]
     for name, seed in seeds(two_nodes=ctx.thorough):
         nslots = 8 if name == 'large' else 1
         jobs += [('single', name, seed, i, nslots) for i in range(nslots)]
